@@ -565,6 +565,28 @@ func (p *c11) Run(c *verifsim.Chooser, st *Stats, render bool) *Outcome {
 		}
 		evals = append(evals, ev)
 	}
+	var cloneBase *c11Eval
+	if len(apiCloners) > 0 && !cold {
+		for _, name := range []string{"read-only-foreach", "foreach-over-literals", "predicate-regexp"} {
+			for i := range c11Families {
+				if c11Families[i].name == name && cloneBase == nil && (famAll+parAll)%3 == len(name)%3 {
+					cloneBase = &c11Eval{fam: &c11Families[i], par: parAll}
+				}
+			}
+		}
+		if cloneBase == nil {
+			for i := range c11Families {
+				if c11Families[i].name == "foreach-over-literals" {
+					cloneBase = &c11Eval{fam: &c11Families[i], par: parAll}
+				}
+			}
+		}
+		if err := cloneBase.build(); err != nil {
+			cloneBase = nil
+		} else {
+			st.probe("discovered-api:" + apiCloners[0])
+		}
+	}
 	type taskPlan struct {
 		own  *c11Eval // lifecycle inside the task
 		eval int      // index into evals for shared clients
@@ -612,7 +634,21 @@ func (p *c11) Run(c *verifsim.Chooser, st *Stats, render bool) *Outcome {
 			}()
 			ev := pl.own
 			evIdx := pl.eval
-			if ev != nil {
+			if ev != nil && cloneBase != nil && (t+ev.par)%2 == 0 {
+				// API the pinned tree does not have: a method that returns
+				// another evaluator (Clone, Fork, …).  The task works on its
+				// own copy of a prepared evaluator with a stateless script.
+				out, pan := apiCall(cloneBase.e, apiCloners[0])
+				if pan != "" || len(out) == 0 || out[0].IsNil() {
+					pl.err = "clone: " + pan
+					return
+				}
+				cp := *cloneBase
+				cp.e = out[0].Interface().(*evalfilter.Eval)
+				cp.shared = false
+				ev = &cp
+				pl.own = ev
+			} else if ev != nil {
 				// whole life cycle inside the task: New, AddFunction,
 				// SetVariable, SetContext, Prepare
 				if err := ev.build(); err != nil {
